@@ -8,6 +8,9 @@ import (
 	"fmt"
 	"math/rand"
 	"os"
+	"runtime"
+	"sync/atomic"
+	"time"
 )
 
 type genFunc func(r *rand.Rand, t *Trace, thorough bool)
@@ -38,6 +41,23 @@ func main() {
 		os.Exit(2)
 	}
 	t := NewTrace(*out)
+	// hang watchdog, by PROGRESS not by total time: a call into the implementation that never returns
+	// (a search waiting for a segment that will not answer, a lock never released) must end the run
+	// with a report instead of hanging the check
+	go func() {
+		last, since := atomic.LoadInt64(&progress), time.Now()
+		for {
+			time.Sleep(3 * time.Second)
+			if now := atomic.LoadInt64(&progress); now != last {
+				last, since = now, time.Now()
+			} else if time.Since(since) > 240*time.Second {
+				fmt.Fprintln(os.Stderr, "HANG-WATCHDOG: no operation completed for 240s while generating", prop, "(operations recorded so far:", last, "); goroutines:")
+				buf := make([]byte, 1<<20)
+				os.Stderr.Write(buf[:runtime.Stack(buf, true)])
+				os.Exit(3)
+			}
+		}
+	}()
 	g(rand.New(rand.NewSource(*seed)), t, *tier == "thorough")
 	t.Close(*stats)
 }
